@@ -266,12 +266,22 @@ pub fn gen_lp(t: &mut Tape, ctx: &mut Ctx) -> Lp {
             }
         };
         ctx.label(format!("bound={}", bound_keyword(&bound)));
-        let obj = if t.p(180) { Some(gen_num(t, true, false)) } else { None };
+        // entries may be written with an explicit zero value ("0", "0.0", "-0", "0e0"): the entry contributes
+        // nothing, the line is still a line of that column and still names a row
+        let zero = |t: &mut Tape| Num { text: (*t.pick(&["0", "0.0", "-0", "0e0"])).to_string(), value: qi(0), dyadic: true };
+        let zero_col = t.p(20);
+        let obj = if t.p(180) { Some(if zero_col || t.p(14) { zero(t) } else { gen_num(t, true, false) }) } else { None };
         let mut entries = vec![];
         for (ri, _) in rows.iter().enumerate() {
             if t.p(150) {
-                entries.push((ri, gen_num(t, true, false)));
+                entries.push((ri, if zero_col || t.p(14) { zero(t) } else { gen_num(t, true, false) }));
             }
+        }
+        if obj.iter().chain(entries.iter().map(|e| &e.1)).any(|n| n.value == qi(0)) {
+            ctx.label("explicit-zero-entry");
+        }
+        if zero_col && (obj.is_some() || !entries.is_empty()) {
+            ctx.label("column-with-only-zero-entries");
         }
         let mut col = Col { name: gen_name(t, "x", i), integer: integer_block, bound, nums, obj, entries };
         if col.obj.is_none() && col.entries.is_empty() {
@@ -424,6 +434,10 @@ pub fn write_mps(lp: &Lp, l: &Layout, inject: &Inject) -> String {
         if first_entry && !ents.is_empty() {
             if *inject == Inject::UnknownRowInColumns {
                 ents[0].0 = "NOSUCHROW".to_string();
+                // (an undeclared row is undeclared whatever the value of the entry)
+                if lp.cols.len() % 2 == 0 {
+                    ents[0].1 = "0".to_string();
+                }
             }
             if *inject == Inject::BadNumberColumns {
                 ents[0].1 = "12x4".to_string();
